@@ -248,7 +248,18 @@ def run(ctx):
         cases = 0
         for env in param_envs(spec):
             tv = [numeric(t, env) for t in spec['thresholds']]
-            for xval, at in order_types(tv):
+            # the tree's own breakpoints belong to the partition as well: a decision placed at a value that is no threshold of the
+            # definition splits one of its regions, and each part has to be compared
+            own = []
+            for n_ in nodes.values():
+                if n_[0] == 'decision':
+                    try:
+                        sv, tv_ = numeric(n_[1], env), numeric(n_[2], env)
+                        if sv != 0:
+                            own.append(Fraction(tv_) / Fraction(sv))
+                    except Exception:
+                        pass
+            for xval, at in order_types(tv + own):
                 cases += 1
                 leaf = route(nodes, children, root, xval, env)
                 piece = [p for p in spec['pieces'] if p[0](xval, env)][0]
